@@ -128,6 +128,23 @@ func runC02(cfg Config, r *Result) {
 			}
 		}
 	}
+	// assignment target chains of every shape (harness/c02targets.go): index / field / slice / assertion steps over
+	// arrays, maps, strings and any, 1-4 steps, running on through illegal steps; the parser decides which of them
+	// are programs, and those must not go wrong
+	for i := 0; i < cfg.N(900, 20000); i++ {
+		src, fam := c02TargetProgram(cfg.Rng)
+		d := semCase(model, r, src, SemOpts{StopAt: -1, YieldBudget: 100000, Events: []SemEvent{{Name: "key", Params: []any{"q"}}}}, true, "target-"+fam+":")
+		if strings.HasPrefix(d.Impl.ParseErr, "gopanic") {
+			r.Dist("parser-gopanic(C03)")
+			continue
+		}
+		for _, p := range d.Impl.Phases {
+			if c02Bad(p.Class) {
+				r.Violate(Violation{Kind: "property", Key: "accepted-target-goes-wrong:" + fam + ":" + p.Class,
+					Detail: "an assignment whose target chain ends with this step is accepted by the parser and the run goes wrong: " + p.Class + " " + d.Impl.GoPanic, Input: map[string]any{"program": src}, Impl: p})
+			}
+		}
+	}
 	// the certificate checker Static.wt on every parser-accepted tree (corpus, generated programs, witnesses)
 	runC02WT(cfg, r)
 }
